@@ -22,7 +22,7 @@ RULE = ('case = (stateful subclass of one of the six worker classes, init_state 
 ASSUMPTIONS = ['thread kinds are excluded from the alive-phase read (documented as unspecified)', 'values are compared with ==']
 SHRINK = 'none'
 TIME_BUDGET = {'quick': 170, 'thorough': 1700}
-REQUIRED = {'quick': {'ending:terminate': 60, 'ending:raise': 60, 'chain>1': 80, 'paused_read': 40, 'first_read:user_state': 100, 'restart': 20, 'inplace_mutation': 60, 'death_observed_without_worker_api': 8},
+REQUIRED = {'quick': {'ending:terminate': 60, 'ending:raise': 60, 'chain>1': 80, 'paused_read': 40, 'first_read:user_state': 100, 'restart': 20, 'inplace_mutation': 60, 'same_object_assigned_back': 40, 'death_observed_without_worker_api': 8},
             'thorough': {'ending:terminate': 600, 'ending:raise': 600, 'chain>1': 800, 'paused_read': 400}}
 
 _VALS = ['none', 'zero', 'str', 'list', 'dict', 'point', 5, 6, 7]
@@ -46,6 +46,18 @@ def strategy(tier):
         'pause': st.booleans(),
         'reads': st.permutations(['user_state', 'has_error', 'result']),
     })
+    inplace_inc = st.fixed_dictionaries({
+        'values': st.lists(st.just('inplace'), min_size=1, max_size=4), 'nowait': st.booleans(),
+        'ending': st.sampled_from(['return', 'return', 'raise']), 'n_raw': st.integers(0, 500), 'pause': st.just(False),
+        'reads': st.permutations(['user_state', 'has_error', 'result'])})
+    same_object = st.fixed_dictionaries({
+        'kind': st.sampled_from(IC.ONE_SHOT + IC.PERSISTENT), 'init': st.sampled_from(['list', 'dict']),
+        'chain': st.lists(inplace_inc, min_size=1, max_size=3), 'use_restart': st.booleans(), 'assign_from_parent': st.just('never')})
+    general = _general(inc)
+    return st.one_of(general, general, general, same_object)
+
+
+def _general(inc):
     return st.fixed_dictionaries({
         'kind': st.sampled_from(IC.ONE_SHOT + IC.PERSISTENT),
         'init': st.sampled_from(_VALS),
@@ -237,6 +249,8 @@ def run_case(case, ctx):
                 cands.append(_apply(cands[-1], v))
             if 'inplace' in values:
                 out.label('inplace_mutation')
+                if all(v == 'inplace' for v in values) and isinstance(state, (list, dict)):
+                    out.label('same_object_assigned_back')
             if ending in ('return', 'raise') or not delivered:
                 # the child ran to its own end (or the terminate request came too late): every assignment was made ... unless terminate
                 # was requested and landed somewhere we do not know
